@@ -64,6 +64,29 @@ def radius_gate(ck, prog, fn, label):
         from sa.prov import subst_upvars
         for bb, t in b.calls():
             f = t.get("f")
+            if f and f["path"].endswith("Iterator::filter_map") and len(t["args"]) == 2:
+                # .filter_map(|(i, p)| { let d = distance(from, p); if d <= radius { Some(..) } else { None } })
+                clo = cx.res.operand(t["args"][1])
+                cb = prog.get(clo[1][len("closure:"):]) if clo[0] == "agg" and clo[1].startswith("closure:") else None
+                if cb is None:
+                    continue
+                ccx = BodyCtx.of(cb)
+                for c in ccx.cmps:
+                    for (L, R, rel) in ((c.lhs, c.rhs, c.rel), (c.rhs, c.lhs, guards.FLIP[c.rel])):
+                        Rs = subst_upvars(prog, cb, R)
+                        if contains(L, IS_DIST) and Rs[0] == "arg" and Rs[1] == 3:
+                            n += 1
+                            acc = set()
+                            for er, dst in ((rel, c.true_bb), (guards.NEG[rel], c.false_bb)):
+                                outs = guards.edge_outcomes(cb, c.bb, dst, ccx.res)
+                                if outs - {"None", "panic"}:
+                                    acc |= guards.ATOMS[er]
+                            if frozenset(acc) == frozenset("nz"):
+                                ck.ok(rule, label, b.path, c.where, "filter_map yields Some iff d <= radius")
+                            else:
+                                ck.violation(rule, label, b.path, c.where, expected="Some(..) exactly when d < r or d == r",
+                                             found=f"the closure yields an item under atoms {sorted(acc)} of sign(d - r)")
+                continue
             if not (f and f["path"].endswith("Iterator::filter") and len(t["args"]) == 2):
                 continue
             recv, clo = cx.res.operand(t["args"][0]), cx.res.operand(t["args"][1])
@@ -273,7 +296,16 @@ def inverse_weights_guarded(ck, prog):
                     continue
                 gates.append((safe, tb if safe == fb else fb, b.where(sb)))
     if not divs:
-        ck.violation(rule, inst, b.path, f"{b.loc[0]}:{b.loc[1]}", expected="an inverse-distance map", found="no 1/d map found")
+        # the inverse-distance weights computed in a loop (or some other form) instead of a `map(|d| 1 / d)`: the rule identifies
+        # the map form positively; a division by an element in the body itself is examined by the guarded-division primitive
+        from sa import divguard
+        sites = divguard.check(b, lambda t_: t_[0] == "idx" or (t_[0] == "variant" and t_[2] == "Some") or (t_[0] == "field" and t_[1][0] == "variant"))
+        if not sites:
+            ck.note(f"{inst}: no inverse-distance map and no division by an element in calc_weights: not decided for this form")
+        elif all(g for _, _, g in sites):
+            ck.ok(rule, inst, b.path, sites[0][0], "loop form: every division by an element sits behind a non-zero test of it")
+        else:
+            ck.note(f"{inst}: inverse distances are formed in a loop whose zero test is not of the recognised per-element form: not decided for this form")
         return
     for db in divs:
         if any(b.dominates(s, db) and not b.dominates(o, db) for (s, o, _) in gates):
@@ -289,7 +321,7 @@ _run3 = run
 def run(ck, prog):
     _run3(ck, prog)
     inverse_weights_guarded(ck, prog)
-    ck.floor("E2-guarded-division", 1)
+    # no floor: the inverse-distance map is identified positively (other forms leave a note)
 
 
 def cover_radius_boundary(ck, prog):
